@@ -18,9 +18,9 @@ pub fn worker(inp: &str, out: &std::path::Path) {
             let mut it = rest.split_whitespace();
             let ext = it.next().unwrap_or("bin");
             let data = unhex(it.next().unwrap_or("-"));
-            let t0 = std::time::Instant::now();
+            let t0 = Stopwatch::start();
             let r = catch(std::panic::AssertUnwindSafe(|| Buffer::from_bytes(std::path::Path::new(&format!("a.{}", ext)), true, &data)));
-            let ms = t0.elapsed().as_millis();
+            let ms = t0.ms();
             let (cls, cells) = match r {
                 Ok(Ok(b)) => ("ok", (b.layers.iter().map(|l| l.lines.iter().map(|r| r.chars.len()).sum::<usize>()).sum::<usize>()) as u64),
                 Ok(Err(_)) => ("err", 0),
@@ -31,9 +31,9 @@ pub fn worker(inp: &str, out: &std::path::Path) {
         }
         if let Some(rest) = line.strip_prefix("sixel ") {
             let data = String::from_utf8_lossy(&unhex(rest.trim())).to_string();
-            let t0 = std::time::Instant::now();
+            let t0 = Stopwatch::start();
             let r = catch(std::panic::AssertUnwindSafe(|| Sixel::parse_from(icy_engine::Position::default(), 1, 1, [0, 0, 0, 0], &data)));
-            let ms = t0.elapsed().as_millis();
+            let ms = t0.ms();
             let (cls, bytes) = match r {
                 Ok(Ok(s)) => ("ok", s.picture_data.len() as u64),
                 Ok(Err(_)) => ("err", 0),
